@@ -54,7 +54,7 @@ def cases(draw):
         "temperature": draw(st.sampled_from([0.0, 0.01, 0.5, 2.0])),
         "seed": draw(st.integers(0, 999)),
         "max_repeats": draw(st.integers(1, 8)),
-        "via": draw(st.sampled_from(["finder", "finder", "slice", "reslice", "finder_reuse"])),
+        "via": draw(st.sampled_from(["finder", "finder", "slice", "reslice", "finder_reuse", "finder_override"])),
         # for finder_reuse: an earlier query with other targets on the SAME finder
         "first_targets": draw(
             st.fixed_dictionaries(
@@ -120,8 +120,35 @@ def run_case(spec, sub=None):
         k = res.split(":")[0]
         return Outcome([], False, cls + [f"no_answer:{k}"])
 
-    if spec["via"] in ("finder", "finder_reuse"):
+    if spec["via"] == "finder_override":
+        # the finder is built with OTHER targets (those of ``first_targets``)
+        # and the targets of this query are given to search() only
         def search():
+            ft = spec["first_targets"]
+            k1 = {}
+            if ft["size_div"]:
+                k1["target_size"] = max(1, base_size // ft["size_div"])
+            if ft["slices"]:
+                k1["target_slices"] = ft["slices"]
+            if ft["overhead"]:
+                k1["target_overhead"] = ft["overhead"]
+            if not k1:
+                k1["target_slices"] = 1
+            sf = ctg.slicer.SliceFinder(
+                tree, allow_outer=spec["allow_outer"], minimize=spec["minimize"],
+                temperature=spec["temperature"], seed=spec["seed"], **k1,
+            )
+            # (targets not named in the call keep the constructor's value)
+            full = {"target_size": None, "target_slices": None, "target_overhead": None}
+            full.update(kw)
+            return sf.search(spec["max_repeats"], **full)
+
+    if spec["via"] in ("finder", "finder_reuse", "finder_override"):
+        _override = search if spec["via"] == "finder_override" else None
+
+        def search():
+            if _override is not None:
+                return _override()
             sf = ctg.slicer.SliceFinder(
                 tree, allow_outer=spec["allow_outer"], minimize=spec["minimize"],
                 temperature=spec["temperature"], seed=spec["seed"], **kw,
